@@ -121,6 +121,21 @@ Verdict(t, e) ==
          ELSE "ok"
     [] OTHER -> "HarnessUnknownFn"
 
+\* cause attribution for the inverse-circuit family: the returned circuit maps the state onto a product of single-qubit
+\* Pauli eigenstates that is not (up to signs) |0..0> - some qubit is left in the X or Y basis
+LeftInXBasis(G, gates) ==
+  LET n == NOf(G) R == RunGates(G, gates) IN
+  /\ GatesOK(gates, n)
+  /\ \A q \in 1..n : Unentangled(R, q)
+  /\ {g.p : g \in R} # {g.p : g \in ZeroGroup(n)}
+CauseOf(t, e) ==
+  IF e.fn = "inverse_circuit" /\ e.out.err = "" /\ InputClause(t, {e.a}) = "ok" /\ LeftInXBasis(StGroup(St(t, e.a)), e.out.gates)
+  THEN "qubit-left-in-X-basis"
+  ELSE IF e.fn = "to_clifford" /\ InputClause(t, {e.a}) = "ok" /\ Len(e.ctx_gates) > 0
+          /\ LeftInXBasis(StGroup(St(t, e.a)), e.ctx_gates)
+  THEN "qubit-left-in-X-basis"
+  ELSE e.fn
+
 Init == tid \in 1..Len(Traces) /\ l = 1 /\ why = "ok" /\ failed = FALSE
 Next ==
   /\ l <= Len(Events(tid))
@@ -129,6 +144,6 @@ Next ==
 TraceSpec == Init /\ [][Next]_vars
 
 Report ==
-  /\ (why # "ok") => PrintT(<<"REJECT", Traces[tid].tid, l - 1, why, Events(tid)[l - 1].fn>>)
+  /\ (why # "ok") => PrintT(<<"REJECT", Traces[tid].tid, l - 1, why, CauseOf(tid, Events(tid)[l - 1])>>)
   /\ (~failed /\ l = Len(Events(tid)) + 1) => PrintT(<<"DONE", Traces[tid].tid>>)
 =============================================================================
